@@ -302,7 +302,8 @@ def graph_info(G):
 
 def one_history(run, sc, i, length):
     rng = run.rng
-    g, files = W.gen_closed(rng, hostile=rng.random() < 0.3)
+    # half of the graphs have a namespace URI with XML-special characters (it shows up in Model / RequiredModel attributes)
+    g, files = W.gen_closed(rng, hostile=rng.random() < 0.3, features={"hostile_uri": rng.random() < 0.5})
     try:
         G, _ = W.build_graph(sc, "g%d" % i, files)
     except Exception as e:  # noqa: BLE001
